@@ -63,22 +63,22 @@ type Table struct {
 // preconditions of a transform hold (C29) or a feature is reachable
 // (CopySpan needs tables without value blocks / spans).
 type Shape struct {
-	MaxEntries     int  // 0: default distribution up to 3000
-	UniquePrefixes bool // at most one point per prefix (synthetic suffix precondition 1)
-	MaxTS          uint64
-	AllSeqZero     bool // every key has seqnum 0 and user keys are unique (ingested table)
-	OnlySets       bool // only SET kinds, never forceObsolete (no obsolete keys at all)
-	NoRangeDels    bool
-	NoRangeKeys    bool
+	MaxEntries      int  // 0: default distribution up to 3000
+	UniquePrefixes  bool // at most one point per prefix (synthetic suffix precondition 1)
+	MaxTS           uint64
+	AllSeqZero      bool // every key has seqnum 0 and user keys are unique (ingested table)
+	OnlySets        bool // only SET kinds, never forceObsolete (no obsolete keys at all)
+	NoRangeDels     bool
+	NoRangeKeys     bool
 	NoRangeKeyUnset bool // synthetic suffix precondition
-	NoLockKeys     bool
-	SmallValues    bool
-	MinFormat      sstable.TableFormat
-	MaxFormat      sstable.TableFormat // 0: newest
-	NoPoints       bool                // table without point keys (range dels / range keys only)
-	ForceRangeDels bool
-	NoValueBlocks  bool
-	ForceTwoLevel  int // 0 random, 1 force single, 2 force two-level
+	NoLockKeys      bool
+	SmallValues     bool
+	MinFormat       sstable.TableFormat
+	MaxFormat       sstable.TableFormat // 0: newest
+	NoPoints        bool                // table without point keys (range dels / range keys only)
+	ForceRangeDels  bool
+	NoValueBlocks   bool
+	ForceTwoLevel   int // 0 random, 1 force single, 2 force two-level
 }
 
 func pick[T any](rng *rand.Rand, xs ...T) T { return xs[rng.IntN(len(xs))] }
